@@ -24,6 +24,7 @@ LIBTEXT = {
     "u": ("U[{{{1|}}}]", False),
     "w": ("W{{u|{{{1|}}}}}", False),
     "v": ("V{{s|{{{k|}}}}}", False),
+    "f": ("F{{u|{{{1|}}}}}", True),
 }
 # the same bodies as ASTs for the reference
 LIBAST = {
@@ -31,10 +32,11 @@ LIBAST = {
     "u": ("SEQ", [("T", "U["), ("P", "1", ("T", "")), ("T", "]")]),
     "w": ("SEQ", [("T", "W"), ("C", "u", [(None, ("P", "1", ("T", "")))])]),
     "v": ("SEQ", [("T", "V"), ("C", "s", [(None, ("P", "k", ("T", "")))])]),
+    "f": ("SEQ", [("T", "F"), ("C", "u", [(None, ("P", "1", ("T", "")))])]),
 }
-FLAGGED = {"s"}
+FLAGGED = {"s", "f"}
 SETS_EXPAND = [None, [], ["u"], ["w"], ["u", "w"], ["v"]]
-SETS_NOT = [None, [], ["s"], ["u"], ["s", "u"]]
+SETS_NOT = [None, [], ["s", "f"], ["u"], ["s", "u", "f"], ["s"]]
 HOOKS = ["none", "ret_none", "mark_u", "mark_all"]
 
 
@@ -46,6 +48,10 @@ def configs(tier):
             continue
         out.append({"templates_to_expand": te, "templates_to_not_expand": tn, "pre_expand": pre,
                     "expand_parserfns": pf, "template_fn": hook, "post_template_fn": phook})
+        # the same selection on a context that is not en.wiktionary: there the body of a flagged template is expanded in
+        # full (documented special case in expand()); everything else follows the same rule
+        if (hook, phook) in (("none", "none"), ("mark_all", "mark_u")):
+            out.append(dict(out[-1], ctx="wikipedia"))
     return out
 
 
@@ -113,7 +119,7 @@ class Ref:
             if name not in LIBAST:
                 res = "[[:Template:" + name + "]]"
             else:
-                res = self.ev(LIBAST[name], args, all_)
+                res = self.ev(LIBAST[name], args, all_ or (name in FLAGGED and self.cfg.get("ctx") == "wikipedia"))
         res = addnl(res)
         if self.cfg["post_template_fn"] != "none" and res:
             self.ptf_calls.append((name, tuple(sorted(args.items(), key=str)), res))
@@ -151,8 +157,8 @@ class Ref:
         return addnl(self.ev(e[3] if e[2].strip() == first.strip() else e[4], frame, True).strip())
 
 
-def make_ctx():
-    ctx = new_ctx()
+def make_ctx(kind=None):
+    ctx = new_ctx(project="wikipedia") if kind == "wikipedia" else new_ctx()
     for n, (b, flag) in LIBTEXT.items():
         ctx.add_page("Template:" + n, 10, b, need_pre_expand=flag)
     ctx.db_conn.commit()
@@ -237,6 +243,11 @@ def pages(tier):
         ("C", "w", [(None, ("C", "s", []))]),
         ("P", "arg", ("C", "u", [(None, ("T", "5"))])),
         ("SW", ("C", "u", []), "x", ("C", "s", []), ("C", "w", [])),
+        ("C", "f", [(None, ("T", "z"))]),
+        ("SEQ", [("C", "f", [(None, ("T", "z"))]), ("C", "u", [(None, ("T", "a"))])]),
+        ("SEQ", [("C", "u", [(None, ("T", "a"))]), ("C", "f", []), ("C", "w", [(None, ("T", "b"))])]),
+        ("SEQ", [("C", "s", []), ("C", "u", [(None, ("T", "a"))]), ("C", "w", [])]),
+        ("C", "w", [(None, ("SEQ", [("C", "f", []), ("C", "u", [])]))]),
         ("IF", ("T", " x "), ("T", "y"), ("T", "n")),
         ("C", "u", [(None, ("IF", ("T", " 1"), ("C", "s", [(None, ("T", "q"))]), ("T", "")))]),
     ]
@@ -298,7 +309,7 @@ def work_invoke(payload, skip, report):
 
 def replay(case):
     """Replays one (page text, configuration) case; the page is re-found in the generated page list by its text."""
-    ctx = make_ctx()
+    ctx = make_ctx(case["config"].get("ctx"))
     try:
         for tier in ("quick", "thorough"):
             for page in pages(tier):
@@ -313,10 +324,11 @@ def replay(case):
 def work(payload, skip, report):
     acc = Acc(PROP)
     tier, cfgs = payload
-    ctx = make_ctx()
+    ctxs = {None: make_ctx(), "wikipedia": make_ctx("wikipedia")}
     pgs = pages(tier)
     i = 0
     for cfg in cfgs:
+        ctx = ctxs[cfg.get("ctx")]
         for page in pgs:
             report(i)
             i += 1
@@ -327,7 +339,8 @@ def work(payload, skip, report):
             if i % 30011 == 0:
                 acc.sample({"page": text, "config": cfg})
         acc.distinct("configs", cfg)
-    close_ctx(ctx)
+    for ctx in ctxs.values():
+        close_ctx(ctx)
     return acc
 
 
